@@ -46,7 +46,9 @@ def build(case, rng=None):
     lst = Listing(case)
     lst.layout()
     isa = case["isa"]
-    bt = ["DYN"] if case.get("pie") else ["EXEC"]
+    # position-independent: "DYN" is in the list, whatever else is
+    bt = list(case.get("bintype") or ["DYN"]) if case.get("pie") \
+        else ["EXEC"]
     ir, m = create_test_module(FMT[case["fmt"]], ISA[isa], bt)
     if m.byte_order == gtirb.Module.ByteOrder.Undefined:
         m.byte_order = gtirb.Module.ByteOrder.Little
